@@ -108,6 +108,7 @@ int ps_sprint_orc (const ProgSpec *ps, char *buf, size_t max);   /* valid .orc t
 uint64_t ps_hash (const ProgSpec *ps);
 OrcProgram *ps_build (ProgSpec *ps);                  /* through the public API */
 const char *ps_varname (const ProgSpec *ps, int v);
+int ps_plain_ldst (const VOp *op);          /* loadX / storeX: may carry an x2/x4 prefix */
 
 /* ---- run configuration ---- */
 enum { FILL_RANDOM, FILL_BOUNDARY, FILL_ZERO, FILL_ONES, FILL_RAMP, FILL_MINMAX, FILL_SMALL,
